@@ -6,6 +6,7 @@ import (
 	"encoding/json"
 	"fmt"
 	"os"
+	"strings"
 	"sync"
 	"time"
 
@@ -134,6 +135,30 @@ func recursion(limit, variant int) []c01.N {
 	return out
 }
 
+// nested builds statements in which Go code (the host function CB) makes an API call while the
+// script is running: an interrupt that arrives inside the inner call must unwind the OUTER Run
+// too (the script's try statements do not see it); a JavaScript exception of the inner call is an
+// ordinary exception of the script.
+func nested(variant int) []c01.N {
+	id, num, str := c01.Id, c01.Num, c01.Str
+	h := func(args ...c01.N) c01.N { return c01.Expr(c01.Call(id("H"), args...)) }
+	inner := []c01.N{c01.For(c01.Var("ck", num(0)), c01.Bin("<", id("ck"), num(2)), c01.Upd("++", false, id("ck")),
+		c01.Block(h(str("in-cb"), id("ck")), c01.Expr(c01.Upd("++", false, id("cbn")))))}
+	switch variant % 4 {
+	case 1:
+		inner = append(inner, c01.Throw(c01.New(id("TypeError"), str("from-cb"))))
+	case 2:
+		inner = append(inner, c01.Expr(c01.Call(id("CB"), c01.Fn("", nil, h(str("inner-cb")), c01.Return(num(5))))))
+	case 3:
+		inner = append(inner, c01.Try([]c01.N{c01.Expr(c01.Call(id("undefinedFunction")))}, "e2", []c01.N{h(str("cb-caught"))}, true, []c01.N{h(str("cb-finally"))}, true))
+	}
+	inner = append(inner, c01.Return(id("cbn")))
+	return []c01.N{c01.Var("cbn", num(0)),
+		c01.Try([]c01.N{h(str("r"), c01.Call(id("CB"), c01.Fn("", nil, inner...)))}, "e",
+			[]c01.N{h(str("caught"), c01.Bin("instanceof", id("e"), id("TypeError")))}, true, []c01.N{h(str("fin"))}, true),
+		h(str("after-cb"), id("cbn"))}
+}
+
 type runner struct {
 	vm  *otto.Otto
 	log [][]any
@@ -195,6 +220,10 @@ func watchdog(f func()) error {
 
 // Check runs the property.
 func Check(c *core.Ctx) (map[string]any, []string, error) {
+	if os.Getenv("VERIF_C18_BUSY_ONLY") != "" { // development aid: the promptness family alone
+		n, err := busyLoops(c)
+		return map[string]any{"busy_loop_forms_interrupted": n}, nil, err
+	}
 	nProg, maxInj := 100, 60
 	if c.Thorough() {
 		nProg, maxInj = 1500, 100000
@@ -218,6 +247,9 @@ func Check(c *core.Ctx) (map[string]any, []string, error) {
 			// a stack depth limit and a recursion around it (the limit admits exactly limit-1 nested calls)
 			limit = 2 + i%7
 			p = append(p, recursion(limit, i)...)
+		} else if i%3 == 1 && i%2 == 0 {
+			// an API call made by a host function while the script runs
+			p = append(p, nested(i/6)...)
 		}
 		recs[i] = &rec{src: c01.RenderProgram(p)}
 		recs[i].line.ID, recs[i].line.Prog, recs[i].line.Follow, recs[i].line.Limit = i+1, p, follow, limit
@@ -358,37 +390,77 @@ func Check(c *core.Ctx) (map[string]any, []string, error) {
 	}, nil
 }
 
-// busyLoops: every loop form with an empty and a non-empty body, at top level,
-// inside a function and inside a built-in's callback, must be interruptible.
+// busyLoops: promptness without the hook.  Every infinite loop the grammar can write from
+// loop kind x test expression x body x context must be left within 10 s of a function
+// arriving on the interrupt channel (the specification polls at every statement and every
+// expression evaluation, so no loop iteration is free of polling points).  The forms are
+// the product of the four lists below; the quick tier runs a seeded quarter of it.
 func busyLoops(c *core.Ctx) (int, error) {
-	loops := []string{"for(;;){}", "for(;;){ x++; }", "while(true){}", "while(true){ x++; }", "do {} while(true);", "do { x++; } while(true);",
-		"for(;;);", "L: for(;;){ continue L; }"}
-	wrap := []string{"var x=0; %s", "var x=0; (function(){ %s })()", "var x=0; [1].forEach(function(){ %s })", "var x=0; try { %s } catch(e) { x = -1; for(;;){} } finally { x = -2 }",
-		"var x=0; ({valueOf:function(){ %s }}) + 1", "var x=0; [2,1].sort(function(){ %s })"}
-	n := 0
+	const pre = "var x=0, spin=true, done=false, o={p:1}; function f(){ return true }; "
+	tests := []string{"true", "1", "spin", "o.p", "!done", "x < 1e15", "f()", "(x++, true)", "spin && spin", "typeof spin", "x >= 0", "o[\"p\"]", "spin ? 1 : 0", "this"}
+	bodies := []string{"", ";", "x++;", "{}", "if (spin) {}", "try {} finally {}", "switch (x) {}", "L2: {}", "with (o) {}", "var y;", "continue;", "for(;false;){}", "spin;", "void 0;"}
+	var loops []string
+	for _, t := range tests {
+		for _, b := range bodies {
+			blk := "{" + b + "}"
+			if b == ";" {
+				blk = ";"
+			}
+			loops = append(loops, "while("+t+")"+blk, "for(;"+t+";)"+blk, "do "+strings.Replace(blk, "continue;", "x++;", 1)+" while("+t+");")
+		}
+	}
+	loops = append(loops, "for(;;){}", "for(;;);", "for(;;x++){}", "L: for(;;){ continue L; }", "L: while(spin){ do { continue L; } while(false); }")
+	wrap := []string{"%s", "(function(){ %s })()", "[1].forEach(function(){ %s })", "try { %s } catch(e) { x = -1; for(;;){} } finally { x = -2 }",
+		"({valueOf:function(){ %s }}) + 1", "[2,1].sort(function(){ %s })", "new function(){ %s }", "({get g(){ %s }}).g",
+		"\"a\".replace(/a/, function(){ %s })", "(function w(flag){ %s })(1)", "JSON.stringify({toJSON:function(){ %s }})", "[1].map(function(){ %s })"}
+	type job struct{ src string }
+	var jobs []job
+	i := 0
 	for _, l := range loops {
 		for _, w := range wrap {
-			src := fmt.Sprintf(w, l)
+			i++
+			if !c.Thorough() && (i+int(c.Seed))%4 != 0 {
+				continue
+			}
+			jobs = append(jobs, job{pre + fmt.Sprintf(w, l)})
+		}
+	}
+	var mu sync.Mutex
+	n := 0
+	sem := make(chan struct{}, 24)
+	var wg sync.WaitGroup
+	for _, j := range jobs {
+		wg.Add(1)
+		sem <- struct{}{}
+		go func(src string) {
+			defer wg.Done()
+			defer func() { <-sem }()
 			vm := otto.New()
 			vm.Interrupt = make(chan func(), 1)
 			payload := &payloadT{"busy"}
 			doneCh := make(chan any, 1)
+			var runErr error
 			go func() {
 				defer func() { doneCh <- recover() }()
-				vm.Run(src)
+				_, runErr = vm.Run(src)
 			}()
 			time.Sleep(20 * time.Millisecond)
 			vm.Interrupt <- func() { panic(payload) }
 			select {
 			case p := <-doneCh:
+				mu.Lock()
+				defer mu.Unlock()
 				if p != any(payload) {
-					c.Violate(fmt.Sprintf("busy loop %q: Run ended with %v instead of unwinding with the interrupt's panic", src, p), map[string]any{"source": src})
+					c.Violate(fmt.Sprintf("busy loop %q: Run ended with %v (error %v) instead of unwinding with the interrupt's panic", src, p, runErr), map[string]any{"source": src})
 				}
 				n++
 			case <-time.After(10 * time.Second):
+				mu.Lock()
+				defer mu.Unlock()
 				c.Violate(fmt.Sprintf("busy loop %q was not interrupted within 10 s", src), map[string]any{"source": src})
 			}
-		}
+		}(j.src)
 	}
+	wg.Wait()
 	return n, nil
 }
